@@ -439,7 +439,7 @@ def check(prop, tier):
     for s in r["samples"]:
         ev.sample(s)
     results = [r]
-    if tier == "thorough" and not os.environ.get("VERIF_ONLY_GROUPS"):
+    if not os.environ.get("VERIF_ONLY_GROUPS"):
         sr = run_suite(tier, wd)
         results.append(sr)
         ev.add_v("repository test-suite with hook H3 (%d tests, %d skipped)" % (sr["tests"], len(sr["skipped"])), sr["merged"], [], sr["v_wall"])
